@@ -289,6 +289,29 @@ func NormMsg(msg string, exact bool) string {
 // GenLog generates one non-deletion log entry.
 func (r *Rng) GenLog(name string, ui uint64, hs int, pool *HashPool, exact bool) Log {
 	l := Log{Name: name, UI: ui}
+	if r.Intn(16) == 0 {
+		// exactly one field differs from the zero value: still an update, not a deletion
+		switch r.Intn(7) {
+		case 0:
+			l.Old = make([]byte, hs)
+		case 1:
+			l.New = pool.Get()
+		case 2:
+			l.User = "u"
+		case 3:
+			l.Email = "e"
+		case 4:
+			l.Time = 1 + uint64(r.Intn(3))
+		case 5:
+			l.TZ = int16(1 + r.Intn(600))
+			if r.Chance(0.5) {
+				l.TZ = -l.TZ
+			}
+		case 6:
+			l.Msg = "m"
+		}
+		return l
+	}
 	pick := func() []byte {
 		switch r.Intn(5) {
 		case 0:
@@ -380,6 +403,9 @@ type Shape struct {
 func GenTable(seed int64, idx int) *Table {
 	r := NewRng(Mix(seed, int64(idx)))
 	t := &Table{}
+	if idx%151 == 37 {
+		return genHugeBlock(r, idx)
+	}
 	c := &t.Cfg
 	c.SHA256 = idx%2 == 1
 	c.Unaligned = (idx/2)%3 == 2
@@ -588,4 +614,30 @@ func NormLog(in Log, hs int, exact bool) Log {
 	}
 	l.Msg = NormMsg(l.Msg, exact)
 	return l
+}
+
+// genHugeBlock: one block of 1-2 MB holding more than 65535 tiny records with a restart
+// at every record (restart interval 1 or keys without shared prefix): the restart count
+// field is 16 bits wide.
+func genHugeBlock(r *Rng, idx int) *Table {
+	t := &Table{}
+	c := &t.Cfg
+	c.SHA256 = idx%2 == 1
+	c.BlockSize = uint32(1<<20 + r.Intn(1<<20))
+	c.Restart = 1
+	c.Unaligned = r.Chance(0.5)
+	c.SkipIndexObjects = true
+	c.SetLimits, c.Min, c.Max = true, 3, 3
+	n := 66000 + r.Intn(6000)
+	const digits = "0123456789abcdefghijklmnopqrstuvwxyz"
+	for i := 0; i < n; i++ {
+		x := i * 17 // spread, stays ascending
+		name := []byte{digits[(x/46656)%36], digits[(x/1296)%36], digits[(x/36)%36], digits[x%36]}
+		if x >= 36*36*36*36 {
+			break
+		}
+		t.Refs = append(t.Refs, Ref{Name: string(name), UI: 3, Kind: KDel})
+	}
+	t.Note = fmt.Sprintf("idx=%d huge single block: %d deletion refs, restart interval 1", idx, len(t.Refs))
+	return t
 }
